@@ -6,6 +6,7 @@ import Driver.C01
 import Driver.C02
 import Driver.C03
 import Driver.C07
+import Driver.C06
 open Ws.Driver
 
 def dispatch (op : String) (args : List String) (obs : String) : String × String :=
@@ -25,6 +26,8 @@ def dispatch (op : String) (args : List String) (obs : String) : String × Strin
   | "pred" => c03pred args obs
   | "spred" => c03spred args obs
   | "u8" => c07u8 args obs
+  | "wr" => c06wr args obs
+  | "wm" => c06wm args obs
   | _ => ("UNKNOWN-OP", "skip")
 
 def handleLine (line : String) : String :=
